@@ -53,6 +53,10 @@ def realise(case, qenv):
     from vf import qcompare
     qenv.call(q0, qcompare.probes(case["seed"])[1])
     kw["post_training_scale"] = np.asarray(qenv.as_np(q0.scale), dtype=np.float32)
+  if kw.get("alpha") == qlattice.ARR_COL:
+    kw["alpha"] = np.array([[1.0], [2.0], [0.5], [4.0], [1.0], [0.25]], dtype=np.float32)
+  elif kw.get("alpha") == qlattice.ARR_ROW:
+    kw["alpha"] = np.array([[1.0, 2.0, 0.5, 4.0]], dtype=np.float32)
   return qenv.build({"cls": case["cls"], "kw": kw}), kw
 
 
